@@ -495,6 +495,13 @@ static std::string exec(const std::vector<std::string>& t, std::string& preds) {
         const base_ref b = parse_base(t[4]);
         bool ok = false, cp = false, ct = false;
         std::string ctor_state;
+        // "-" no base; "?" the step is not recorded (invalid base object / base string that does not parse)
+        std::string base_raw = "-";
+        if (b.kind == 1) base_raw = g_url[b.slot].is_valid() ? raw_state(g_url[b.slot]) : std::string("?");
+        if (b.kind == 2) {
+            upa::url bu;
+            base_raw = with_arg(b.enc, b.units, [&](auto&& bs) { return bu.parse(bs, nullptr) == upa::validation_errc::ok; }) ? raw_state(bu) : std::string("?");
+        }
         if (b.kind == 2) {
             ok = with_arg(t[2], units, [&](auto&& a) { return with_arg(b.enc, b.units, [&](auto&& bs) { return g_url[k].parse(a, bs) == upa::validation_errc::ok; }); });
             cp = with_arg(t[2], units, [&](auto&& a) { return with_arg(b.enc, b.units, [&](auto&& bs) { return upa::url::can_parse(a, bs); }); });
@@ -516,6 +523,9 @@ static std::string exec(const std::vector<std::string>& t, std::string& preds) {
         }
         // C09: parse, can_parse and the throwing constructor agree, objects equal
         preds += (ok == ct && (!ok || ctor_state == full_state(g_url[k]))) ? " ct=1" : " ct=0";
+        // raw representation of the base before and of the result after: replayed on the operational parser model
+        if (base_raw != "?")
+            g_step = "parse - " + t[2] + " " + t[3] + " " + (ok ? "1" : "0") + " | " + base_raw + " | " + (ok ? raw_state(g_url[k]) : std::string("-"));
         return std::string("ok=") + (ok ? "1" : "0") + " cp=" + (cp ? "1" : "0") + " " + obj_line(g_url[k], preds);
     }
     // ---- self-referential arguments: the argument is a VIEW of the object's own storage
